@@ -120,6 +120,7 @@ type Explorer struct {
 	Seed        int64
 	Fix         map[string]uint64
 	SkipKnown   map[string]bool
+	Params      map[string]int
 
 	// per path
 	inputs   []InputRec
@@ -130,6 +131,7 @@ type Explorer struct {
 	env      *term.RangeEnv
 	Filtered int
 	pending  []pendingAssert
+	realDecs int
 	NoBatch  bool
 }
 
@@ -178,25 +180,35 @@ func (x *Explorer) push(d Decision) {
 	if len(x.Decs) > x.Res.MaxDepth {
 		x.Res.MaxDepth = len(x.Decs)
 	}
-	if x.ShardN > 1 && len(x.Decs) == x.ShardDepth {
-		if !x.ownsPrefix() {
-			panic(abortPath{"notowned", ""})
-		}
+	if d.Kind != dAssume {
+		x.tick()
 	}
 }
 
 var debugBranches = os.Getenv("ZSX_DEBUG_BRANCHES") != ""
+
+// tick counts a non-assume decision (new or replayed) and enforces shard ownership at the shard depth.
+func (x *Explorer) tick() {
+	x.realDecs++
+	if x.ShardN > 1 && x.realDecs == x.ShardDepth && !x.ownsPrefix() {
+		panic(abortPath{"notowned", ""})
+	}
+}
 
 func (x *Explorer) ownsPrefix() bool {
 	if x.ShardN <= 1 {
 		return true
 	}
 	h := fnv.New32a()
-	n := len(x.Decs)
-	if n > x.ShardDepth {
-		n = x.ShardDepth
-	}
-	for _, d := range x.Decs[:n] {
+	n := 0
+	for _, d := range x.Decs {
+		if d.Kind == dAssume {
+			continue
+		}
+		if n >= x.ShardDepth {
+			break
+		}
+		n++
 		b := byte(0)
 		if d.Dir {
 			b = 1
@@ -233,6 +245,7 @@ func (x *Explorer) branchSym(c *term.Term, label string) bool {
 		}
 		x.pos++
 		x.env.Assume(d.pcTerm(x.st()))
+		x.tick()
 		return d.Dir
 	}
 	st := x.st()
@@ -310,6 +323,7 @@ func (x *Explorer) concretize(t *term.Term, what string) uint64 {
 			}
 			x.pos++
 			x.env.Assume(d.pcTerm(x.st()))
+			x.tick()
 			if d.Dir {
 				return d.Val
 			}
@@ -592,6 +606,7 @@ func (x *Explorer) runOnce(h *ssa.Function) (outcome string) {
 	x.observed = nil
 	x.expectPanic = 0
 	x.env = term.NewRangeEnv()
+	x.realDecs = 0
 	in.S.PopTo(x.prefixLen)
 	if len(x.Decs) > x.prefixLen {
 		x.Decs = x.Decs[:x.prefixLen]
@@ -644,7 +659,7 @@ func (x *Explorer) runOnce(h *ssa.Function) (outcome string) {
 	in.callFn(h, nil, nil, nil)
 	in.runSpawned()
 	x.flushAsserts()
-	if x.ShardN > 1 && len(x.Decs) < x.ShardDepth && !x.ownsPrefix() {
+	if x.ShardN > 1 && x.realDecs < x.ShardDepth && !x.ownsPrefix() {
 		return "notowned"
 	}
 	outcome = "ok"
